@@ -28,6 +28,9 @@ def bn_history_runs(ctx, rep, kinds, acts, depth, label):
         for tr in (True, False):
             cfgs.append(("%s%s-tr%d" % (label, nm, tr), dict(Layer="bn", Batches=batches, NC=2, Momentum=[Q(1, 2)], Affine=True, Track=tr, Gamma=[Q(2), Q(-1)], Beta=[Q(1), Q(3)],
                                                             StatsSet=STATS, PDrop=Q(1, 2), Inputs=[], GradsIn=[], MaxHist=depth, Acts=acts)))
+    # a large eps (1/2): where eps sits in the formula becomes visible
+    cfgs.append(("%s2d-eps" % label, dict(Layer="bn", Batches=B2[:1], NC=2, Momentum=[Q(1, 2)], Affine=True, Track=True, Gamma=[Q(2), Q(-1)], Beta=[Q(1), Q(3)],
+                                         StatsSet=STATS, PDrop=Q(1, 2), Inputs=[], GradsIn=[], MaxHist=depth, Acts=acts, Eps=Q(1, 2))))
     em = HC.emit_many(rep, "NormDrop", cfgs)
     for name, (mx, table, c) in em.items():
         HC.replay_all(ctx, rep, mx, table, dict(c, StatsSet=str(c["StatsSet"])), kinds, RP, "NormDrop", label=name + ":", procs=8)
@@ -99,6 +102,10 @@ def run(ctx):
         for tr in (True, False):
             cfgs.append(("bnbwd%s-tr%d" % (nm, tr), dict(Layer="bn", Batches=batches, NC=2, Momentum=[Q(1, 2)], Affine=True, Track=tr, Gamma=[Q(2), Q(-1)], Beta=[Q(1), Q(3)],
                                                        StatsSet=STATS, PDrop=Q(1, 2), Inputs=[], GradsIn=[], MaxHist=depth, Acts={"mode", "fwd", "bnbwd"})))
+    # a large eps (1/2): where eps sits in the formula becomes visible, in training and in eval mode
+    for tr in (True, False):
+        cfgs.append(("bn2d-eps-tr%d" % tr, dict(Layer="bn", Batches=B2, NC=2, Momentum=[Q(1, 2)], Affine=False, Track=tr, Gamma=[Q(2), Q(-1)], Beta=[Q(1), Q(3)], StatsSet=STATS,
+                                                PDrop=Q(1, 2), Inputs=[], GradsIn=[], MaxHist=depth - 1, Acts={"mode", "stats", "fwd"}, Eps=Q(1, 2))))
     # the layer inside nested containers: train()/eval() issued on the root or on the layer itself
     for mom in ([], [Q(1, 2)]):
         cfgs.append(("bn-nested-mom%s" % ("N" if not mom else mom[0][1]),
